@@ -39,8 +39,16 @@ IsF5(S, e) ==
   \* ... and one of the attempted transfers is the reply's own payment into the insurance fund
   /\ \E i \in 1..Len(e.xfers) : e.xfers[i].from = "engine" /\ e.xfers[i].to = "ifund"
 
+(* F14: the per-trader mark of the restriction rule lives in Position.block_number; closing a
+   position and a full liquidation remove the record, so a trader who closed earlier in a
+   liquidation block, or who was fully liquidated in it, is not recognised and may open again. *)
+IsF14(S, e) ==
+  /\ EngOp(e, "open_position") /\ e.res.ok
+  /\ e.tx.a.vamm \in Vs(S) /\ e.tx.s \in Traders /\ ~PosOf(S, e.tx.a.vamm, e.tx.s).exists
+
 FindingOf(tag, S, e, T) ==
-  IF tag = "C07.live" /\ IsF6(S, e) THEN "F6"
+  IF tag = "C16.must_fail" /\ IsF14(S, e) THEN "F14"
+  ELSE IF tag = "C07.live" /\ IsF6(S, e) THEN "F6"
   ELSE IF tag = "C07.live" /\ IsF5(S, e) THEN "F5"
   ELSE ""
 =============================================================================
